@@ -18,8 +18,8 @@ theorem step_none {s : State} {t : Nat} (h : s.threads[t]? = none) : step s t = 
   simp [step, h]
 
 theorem step_some {s : State} {t : Nat} {pc : Pc} (h : s.threads[t]? = some pc) :
-    step s t = { committed := (stepPc s.committed s.deal pc).1, deal := (stepPc s.committed s.deal pc).2.1,
-                 threads := s.threads.set t (stepPc s.committed s.deal pc).2.2 } := by
+    step s t = { window := s.window, committed := (stepPc s.window s.committed s.deal pc).1, deal := (stepPc s.window s.committed s.deal pc).2.1,
+                 threads := s.threads.set t (stepPc s.window s.committed s.deal pc).2.2 } := by
   simp [step, h]
 
 theorem step_threads_ne (s : State) {t j : Nat} (hne : j ≠ t) : (step s t).threads[j]? = s.threads[j]? := by
@@ -30,7 +30,7 @@ theorem step_threads_ne (s : State) {t j : Nat} (hne : j ≠ t) : (step s t).thr
     simp [Ne.symm hne]
 
 theorem step_threads_self {s : State} {t : Nat} {pc : Pc} (h : s.threads[t]? = some pc) :
-    (step s t).threads[t]? = some (stepPc s.committed s.deal pc).2.2 := by
+    (step s t).threads[t]? = some (stepPc s.window s.committed s.deal pc).2.2 := by
   rw [step_some h]
   have hlt : t < s.threads.length := by
     rcases List.getElem?_eq_some_iff.mp h with ⟨hl, _⟩
@@ -42,6 +42,16 @@ theorem step_length (s : State) (t : Nat) : (step s t).threads.length = s.thread
   | none => rw [step_none h]
   | some pc => rw [step_some h]; simp
 
+theorem step_window (s : State) (t : Nat) : (step s t).window = s.window := by
+  cases h : s.threads[t]? with
+  | none => rw [step_none h]
+  | some pc => rw [step_some h]
+
+theorem run_window (s : State) (p : List Nat) : (run s p).window = s.window := by
+  induction p generalizing s with
+  | nil => rfl
+  | cons t p ih => rw [run_cons, ih, step_window]
+
 theorem run_length (s : State) (p : List Nat) : (run s p).threads.length = s.threads.length := by
   induction p generalizing s with
   | nil => rfl
@@ -50,17 +60,17 @@ theorem run_length (s : State) (p : List Nat) : (run s p).threads.length = s.thr
 /-! ## finished threads -/
 
 def Pc.done : Pc → Bool
-  | .dealDone _ | .getDone _ | .commitDone _ | .oldDone _ => true
+  | .dealDone _ | .dealRefused _ _ | .getDone _ | .commitDone _ | .oldDone _ => true
   | _ => false
 
-theorem stepPc_done {pc : Pc} (h : pc.done = true) (c d : Nat) : stepPc c d pc = (c, d, pc) := by
+theorem stepPc_done {pc : Pc} (h : pc.done = true) (W c d : Nat) : stepPc W c d pc = (c, d, pc) := by
   cases pc <;> simp [Pc.done] at h <;> rfl
 
 theorem step_done {s : State} {t : Nat} {pc : Pc} (h : s.threads[t]? = some pc) (hd : pc.done = true) :
     step s t = s := by
   rw [step_some h, stepPc_done hd]
   cases s with
-  | mk c d ts =>
+  | mk W c d ts =>
     simp only [State.mk.injEq, true_and]
     apply List.ext_getElem?
     intro j
@@ -84,19 +94,19 @@ theorem done_stable {s : State} {t : Nat} {pc : Pc} (h : s.threads[t]? = some pc
 
 /-! ## monotone registers -/
 
-theorem stepPc_deal_mono (c d : Nat) (pc : Pc) : d ≤ (stepPc c d pc).2.1 := by
+theorem stepPc_deal_mono (W c d : Nat) (pc : Pc) : d ≤ (stepPc W c d pc).2.1 := by
   cases pc <;> simp only [stepPc] <;> (try split) <;> (try split) <;> simp_all <;> omega
 
-theorem stepPc_committed_mono (c d : Nat) (pc : Pc) (h : ∀ r, pc ≠ .oldStoreC r) : c ≤ (stepPc c d pc).1 := by
+theorem stepPc_committed_mono (W c d : Nat) (pc : Pc) (h : ∀ r, pc ≠ .oldStoreC r) : c ≤ (stepPc W c d pc).1 := by
   cases pc <;> simp only [stepPc] <;> (try split) <;> (try split) <;> simp_all <;> omega
 
-theorem stepPc_not_oldStoreC (c d : Nat) (pc : Pc) (r : Nat) : (stepPc c d pc).2.2 ≠ .oldStoreC r := by
+theorem stepPc_not_oldStoreC (W c d : Nat) (pc : Pc) (r : Nat) : (stepPc W c d pc).2.2 ≠ .oldStoreC r := by
   cases pc <;> simp only [stepPc] <;> (try split) <;> (try split) <;> simp
 
 theorem step_deal_mono (s : State) (t : Nat) : s.deal ≤ (step s t).deal := by
   cases h : s.threads[t]? with
   | none => rw [step_none h]; exact Nat.le_refl _
-  | some pc => rw [step_some h]; exact stepPc_deal_mono _ _ _
+  | some pc => rw [step_some h]; exact stepPc_deal_mono _ _ _ _
 
 theorem run_deal_mono (s : State) (p : List Nat) : s.deal ≤ (run s p).deal := by
   induction p generalizing s with
@@ -114,7 +124,7 @@ theorem noPlainStore_step {s : State} (h : NoPlainStore s) (t : Nat) : NoPlainSt
     | none => rw [step_none hs] at hi; exact h i r hi
     | some pc =>
       rw [step_threads_self hs] at hi
-      exact stepPc_not_oldStoreC _ _ _ _ (Option.some.inj hi)
+      exact stepPc_not_oldStoreC _ _ _ _ _ (Option.some.inj hi)
   · rw [step_threads_ne s hit] at hi; exact h i r hi
 
 theorem noPlainStore_run {s : State} (h : NoPlainStore s) (p : List Nat) : NoPlainStore (run s p) := by
@@ -127,7 +137,7 @@ theorem step_committed_mono {s : State} (h : NoPlainStore s) (t : Nat) : s.commi
   | none => rw [step_none hs]; exact Nat.le_refl _
   | some pc =>
     rw [step_some hs]
-    exact stepPc_committed_mono _ _ _ (fun r hr => h t r (hr ▸ hs))
+    exact stepPc_committed_mono _ _ _ _ (fun r hr => h t r (hr ▸ hs))
 
 theorem run_committed_mono {s : State} (h : NoPlainStore s) (p : List Nat) : s.committed ≤ (run s p).committed := by
   induction p generalizing s with
@@ -136,17 +146,22 @@ theorem run_committed_mono {s : State} (h : NoPlainStore s) (p : List Nat) : s.c
 
 /-! ## the invariant -/
 
-/-- What a thread at `pc` knows about the registers `c d`: results and loaded values are below the
-register they were read from, a Commit past its first loop has `committed ≥ r`, a finished one has both. -/
-def Local (c d : Nat) : Pc → Prop
-  | .dealAdd | .getLoad | .loadC _ => True
-  | .dealDone v => 1 ≤ v ∧ v ≤ d
+/-- What a thread at `pc` knows about the registers `c d` (window `W`): results and loaded values are below
+the register they were read from, a returned Deal result is inside the window of the CURRENT committed
+revision, a refusal was justified by the values loaded, a Commit past its first loop has `committed ≥ r`, a
+finished one has both. -/
+def Local (W c d : Nat) : Pc → Prop
+  | .dealLoadD | .getLoad | .loadC _ => True
+  | .dealLoadC dealt => dealt ≤ d
+  | .dealCas dealt c0 => dealt ≤ d ∧ c0 ≤ c
+  | .dealDone v => 1 ≤ v ∧ v ≤ d ∧ v ≤ c + (W - 1)
+  | .dealRefused dealt c0 => dealt ≤ d ∧ c0 ≤ c ∧ c0 ≤ dealt ∧ W ≤ dealt + 1 - c0
   | .getDone v => v ≤ c
   | .casC _ cur => cur ≤ c
   | .loadD r => r ≤ c
   | .casD r cur => r ≤ c ∧ cur ≤ d
   | .commitDone r => r ≤ c ∧ r ≤ d
-  | .oldStoreC _ | .midLoadC _ | .midCasC _ _ | .oldLoadD _ | .oldCasD _ _ | .oldDone _ => False
+  | .dealAddOld | .oldStoreC _ | .midLoadC _ | .midCasC _ _ | .oldLoadD _ | .oldCasD _ _ | .oldDone _ => False
 
 /-- Returned Deal results are pairwise different. -/
 def DistinctDeals (ts : List Pc) : Prop :=
@@ -154,21 +169,21 @@ def DistinctDeals (ts : List Pc) : Prop :=
 
 /-- The invariant of the LTS (current routines only). -/
 structure WF (s : State) : Prop where
-  loc : ∀ (i : Nat) (pc : Pc), s.threads[i]? = some pc → Local s.committed s.deal pc
+  loc : ∀ (i : Nat) (pc : Pc), s.threads[i]? = some pc → Local s.window s.committed s.deal pc
   distinct : DistinctDeals s.threads
 
-theorem Local_mono {c d c' d' : Nat} {pc : Pc} (h : Local c d pc) (hc : c ≤ c') (hd : d ≤ d') : Local c' d' pc := by
+theorem Local_mono {W c d c' d' : Nat} {pc : Pc} (h : Local W c d pc) (hc : c ≤ c') (hd : d ≤ d') : Local W c' d' pc := by
   cases pc <;> simp only [Local] at h ⊢ <;> omega
 
-theorem stepPc_local {c d : Nat} {pc : Pc} (h : Local c d pc) :
-    c ≤ (stepPc c d pc).1 ∧ d ≤ (stepPc c d pc).2.1 ∧
-      Local (stepPc c d pc).1 (stepPc c d pc).2.1 (stepPc c d pc).2.2 := by
+theorem stepPc_local {W c d : Nat} {pc : Pc} (h : Local W c d pc) :
+    c ≤ (stepPc W c d pc).1 ∧ d ≤ (stepPc W c d pc).2.1 ∧
+      Local W (stepPc W c d pc).1 (stepPc W c d pc).2.1 (stepPc W c d pc).2.2 := by
   cases pc <;> simp only [Local] at h <;> simp only [stepPc] <;> (try split) <;> (try split) <;>
     simp only [Local] <;> (first | omega | simp)
 
-theorem stepPc_dealDone {c d : Nat} {pc : Pc} {v : Nat} (h : (stepPc c d pc).2.2 = .dealDone v) :
-    (pc = .dealAdd ∧ v = d + 1) ∨ pc = .dealDone v := by
-  cases pc <;> simp only [stepPc] at h <;> (try split at h) <;> (try split at h) <;> simp_all
+theorem stepPc_dealDone {W c d : Nat} {pc : Pc} {v : Nat} (h : (stepPc W c d pc).2.2 = .dealDone v) :
+    v = d + 1 ∨ pc = .dealDone v := by
+  cases pc <;> simp only [stepPc] at h <;> (try split at h) <;> (try split at h) <;> simp_all <;> omega
 
 theorem wf_not_old {s : State} (h : WF s) {i : Nat} {pc : Pc} (hi : s.threads[i]? = some pc) : pc.current = true := by
   have := h.loc i pc hi
@@ -184,11 +199,11 @@ theorem wf_step {s : State} (h : WF s) (t : Nat) : WF (step s t) := by
   | none => rw [step_none hs]; exact h
   | some pc =>
     have hl := stepPc_local (h.loc t pc hs)
-    have hc : (step s t).committed = (stepPc s.committed s.deal pc).1 := by rw [step_some hs]
-    have hd : (step s t).deal = (stepPc s.committed s.deal pc).2.1 := by rw [step_some hs]
+    have hc : (step s t).committed = (stepPc s.window s.committed s.deal pc).1 := by rw [step_some hs]
+    have hd : (step s t).deal = (stepPc s.window s.committed s.deal pc).2.1 := by rw [step_some hs]
     constructor
     · intro i pc' hi
-      rw [hc, hd]
+      rw [step_window, hc, hd]
       by_cases hit : i = t
       · subst hit
         rw [step_threads_self hs] at hi
@@ -203,7 +218,7 @@ theorem wf_step {s : State} (h : WF s) (t : Nat) : WF (step s t) := by
         by_cases hit : i = t
         · subst hit
           rw [step_threads_self hs] at hi
-          rcases stepPc_dealDone (Option.some.inj hi) with ⟨_, hv⟩ | hpc
+          rcases stepPc_dealDone (Option.some.inj hi) with hv | hpc
           · exact Or.inr ⟨rfl, hv⟩
           · exact Or.inl (hpc ▸ hs)
         · rw [step_threads_ne s hit] at hi; exact Or.inl hi
@@ -219,7 +234,7 @@ theorem wf_run {s : State} (h : WF s) (p : List Nat) : WF (run s p) := by
   | nil => exact h
   | cons t p ih => rw [run_cons]; exact ih (wf_step h t)
 
-theorem wf_init (c d : Nat) (calls : List Call) : WF (init c d calls) := by
+theorem wf_init (W c d : Nat) (calls : List Call) : WF (init W c d calls) := by
   constructor
   · intro i pc hi
     simp only [init, List.getElem?_map] at hi
@@ -237,25 +252,60 @@ theorem wf_init (c d : Nat) (calls : List Call) : WF (init c d calls) := by
       simp [hc] at hi
       cases call <;> simp [Call.entry] at hi
 
+/-! ## the deal cursor stays inside the window of the committed revision -/
+
+theorem stepPc_cursor_window {W c d : Nat} {pc : Pc} (h : Local W c d pc) (hw : d ≤ c + (W - 1)) :
+    (stepPc W c d pc).2.1 ≤ (stepPc W c d pc).1 + (W - 1) := by
+  cases pc <;> simp only [Local] at h <;> simp only [stepPc] <;> (try split) <;> (try split) <;> (try simp only) <;> omega
+
+theorem step_cursor_window {s : State} (h : WF s) (hw : s.deal ≤ s.committed + (s.window - 1)) (t : Nat) :
+    (step s t).deal ≤ (step s t).committed + ((step s t).window - 1) := by
+  cases hs : s.threads[t]? with
+  | none => rw [step_none hs]; exact hw
+  | some pc =>
+    rw [step_some hs]
+    exact stepPc_cursor_window (h.loc t pc hs) hw
+
+theorem run_cursor_window {s : State} (h : WF s) (hw : s.deal ≤ s.committed + (s.window - 1)) (p : List Nat) :
+    (run s p).deal ≤ (run s p).committed + ((run s p).window - 1) := by
+  induction p generalizing s with
+  | nil => exact hw
+  | cons t p ih => rw [run_cons]; exact ih (wf_step h t) (step_cursor_window h hw t)
+
 /-! ## a Deal that has not executed its add yet returns a value above the current cursor -/
 
-theorem deal_result_above {s : State} {b v : Nat} (p : List Nat)
-    (hb : s.threads[b]? = some .dealAdd) (hv : (run s p).threads[b]? = some (.dealDone v)) : s.deal < v := by
-  induction p generalizing s with
-  | nil => rw [run_nil, hb] at hv; cases hv
+theorem stepPc_dealing {W c d : Nat} {pc : Pc} (h : pc.dealing = true) :
+    (stepPc W c d pc).2.2 = .dealDone (d + 1) ∨ (stepPc W c d pc).2.2.dealing = true ∨
+      ∃ a b, (stepPc W c d pc).2.2 = .dealRefused a b := by
+  cases pc <;> simp [Pc.dealing] at h <;> simp only [stepPc] <;> (try split) <;> (try split) <;>
+    simp_all [Pc.dealing]
+
+/-- A Deal call that is still in progress (its successful add has not executed) returns, if it returns a
+revision at all, one above the cursor's present value. -/
+theorem deal_result_above {s : State} {b v : Nat} {pc : Pc} (p : List Nat)
+    (hb : s.threads[b]? = some pc) (hpc : pc.dealing = true)
+    (hv : (run s p).threads[b]? = some (.dealDone v)) : s.deal < v := by
+  induction p generalizing s pc with
+  | nil => rw [run_nil, hb] at hv; cases hv; simp [Pc.dealing] at hpc
   | cons i p ih =>
     rw [run_cons] at hv
     by_cases hi : i = b
     · subst hi
-      have h1 : (step s i).threads[i]? = some (.dealDone (s.deal + 1)) := by
-        rw [step_threads_self hb]; rfl
-      have h2 := done_stable h1 rfl p
-      rw [h2] at hv
-      cases hv
-      exact Nat.lt_succ_self _
-    · have h1 : (step s i).threads[b]? = some .dealAdd := by
+      have h1 := step_threads_self hb
+      rcases stepPc_dealing (W := s.window) (c := s.committed) (d := s.deal) hpc with h2 | h2 | ⟨a, b, h2⟩
+      · rw [h2] at h1
+        have h3 := done_stable h1 rfl p
+        rw [h3] at hv
+        cases hv
+        exact Nat.lt_succ_self _
+      · exact Nat.lt_of_le_of_lt (step_deal_mono s i) (ih h1 h2 hv)
+      · rw [h2] at h1
+        have h3 := done_stable h1 rfl p
+        rw [h3] at hv
+        cases hv
+    · have h1 : (step s i).threads[b]? = some pc := by
         rw [step_threads_ne s (Ne.symm hi)]; exact hb
-      exact Nat.lt_of_le_of_lt (step_deal_mono s i) (ih h1 hv)
+      exact Nat.lt_of_le_of_lt (step_deal_mono s i) (ih h1 hpc hv)
 
 /-- A GetRevision that has not executed its load yet returns at least the current committed revision. -/
 theorem get_result_above {s : State} {g v : Nat} (p : List Nat) (hn : NoPlainStore s)
@@ -279,75 +329,75 @@ theorem get_result_above {s : State} {g v : Nat} (p : List Nat) (hn : NoPlainSto
 /-! ## a Commit scheduled alone -/
 
 /-- `n` consecutive instructions of one thread, seen from that thread. -/
-def solo : Nat → Nat × Nat × Pc → Nat × Nat × Pc
+def solo (W : Nat) : Nat → Nat × Nat × Pc → Nat × Nat × Pc
   | 0, x => x
-  | n + 1, x => solo n (stepPc x.1 x.2.1 x.2.2)
+  | n + 1, x => solo W n (stepPc W x.1 x.2.1 x.2.2)
 
 theorem run_solo {s : State} {t : Nat} {pc : Pc} (n : Nat) (h : s.threads[t]? = some pc) :
-    (run s (List.replicate n t)).committed = (solo n (s.committed, s.deal, pc)).1 ∧
-    (run s (List.replicate n t)).deal = (solo n (s.committed, s.deal, pc)).2.1 ∧
-    (run s (List.replicate n t)).threads[t]? = some (solo n (s.committed, s.deal, pc)).2.2 := by
+    (run s (List.replicate n t)).committed = (solo s.window n (s.committed, s.deal, pc)).1 ∧
+    (run s (List.replicate n t)).deal = (solo s.window n (s.committed, s.deal, pc)).2.1 ∧
+    (run s (List.replicate n t)).threads[t]? = some (solo s.window n (s.committed, s.deal, pc)).2.2 := by
   induction n generalizing s pc with
   | zero => exact ⟨rfl, rfl, h⟩
   | succ n ih =>
     rw [List.replicate_succ, run_cons]
     have h' := step_threads_self h
     have := ih h'
-    have hc : (step s t).committed = (stepPc s.committed s.deal pc).1 := by rw [step_some h]
-    have hd : (step s t).deal = (stepPc s.committed s.deal pc).2.1 := by rw [step_some h]
-    rw [hc, hd] at this
+    have hc : (step s t).committed = (stepPc s.window s.committed s.deal pc).1 := by rw [step_some h]
+    have hd : (step s t).deal = (stepPc s.window s.committed s.deal pc).2.1 := by rw [step_some h]
+    rw [hc, hd, step_window] at this
     exact this
 
-theorem solo_done (n : Nat) {pc : Pc} (h : pc.done = true) (c d : Nat) : solo n (c, d, pc) = (c, d, pc) := by
+theorem solo_done (W n : Nat) {pc : Pc} (h : pc.done = true) (c d : Nat) : solo W n (c, d, pc) = (c, d, pc) := by
   induction n with
   | zero => rfl
   | succ n ih => simp only [solo]; rw [stepPc_done h]; exact ih
 
-theorem solo_loadD (n c d r : Nat) : (solo (n + 2) (c, d, .loadD r)).2.2 = .commitDone r := by
-  show (solo n (stepPc c d (.casD r d))).2.2 = _
+theorem solo_loadD (W n c d r : Nat) : (solo W (n + 2) (c, d, .loadD r)).2.2 = .commitDone r := by
+  show (solo W n (stepPc W c d (.casD r d))).2.2 = _
   by_cases h : r ≤ d
-  · simp only [stepPc, if_pos h]; rw [solo_done n rfl]
-  · simp only [stepPc, if_neg h, if_true]; rw [solo_done n rfl]
+  · simp only [stepPc, if_pos h]; rw [solo_done W n rfl]
+  · simp only [stepPc, if_neg h, if_true]; rw [solo_done W n rfl]
 
-theorem solo_casD (n c d r cur : Nat) : (solo (n + 3) (c, d, .casD r cur)).2.2 = .commitDone r := by
-  show (solo (n + 2) (stepPc c d (.casD r cur))).2.2 = _
+theorem solo_casD (W n c d r cur : Nat) : (solo W (n + 3) (c, d, .casD r cur)).2.2 = .commitDone r := by
+  show (solo W (n + 2) (stepPc W c d (.casD r cur))).2.2 = _
   by_cases h1 : r ≤ cur
-  · simp only [stepPc, if_pos h1]; rw [solo_done (n + 2) rfl]
+  · simp only [stepPc, if_pos h1]; rw [solo_done W (n + 2) rfl]
   · by_cases h2 : d = cur
-    · simp only [stepPc, if_neg h1, if_pos h2]; rw [solo_done (n + 2) rfl]
-    · simp only [stepPc, if_neg h1, if_neg h2]; exact solo_loadD n c d r
+    · simp only [stepPc, if_neg h1, if_pos h2]; rw [solo_done W (n + 2) rfl]
+    · simp only [stepPc, if_neg h1, if_neg h2]; exact solo_loadD W n c d r
 
-theorem solo_casC_ok (n c d r cur : Nat) (h : r ≤ cur ∨ c = cur) :
-    (solo (n + 3) (c, d, .casC r cur)).2.2 = .commitDone r := by
-  show (solo (n + 2) (stepPc c d (.casC r cur))).2.2 = _
+theorem solo_casC_ok (W n c d r cur : Nat) (h : r ≤ cur ∨ c = cur) :
+    (solo W (n + 3) (c, d, .casC r cur)).2.2 = .commitDone r := by
+  show (solo W (n + 2) (stepPc W c d (.casC r cur))).2.2 = _
   by_cases h1 : r ≤ cur
-  · simp only [stepPc, if_pos h1]; exact solo_loadD n c d r
+  · simp only [stepPc, if_pos h1]; exact solo_loadD W n c d r
   · have h2 : c = cur := h.resolve_left h1
-    simp only [stepPc, if_neg h1, if_pos h2]; exact solo_loadD n r d r
+    simp only [stepPc, if_neg h1, if_pos h2]; exact solo_loadD W n r d r
 
-theorem solo_loadC (n c d r : Nat) : (solo (n + 4) (c, d, .loadC r)).2.2 = .commitDone r := by
-  show (solo (n + 3) (c, d, .casC r c)).2.2 = _
-  exact solo_casC_ok n c d r c (Or.inr rfl)
+theorem solo_loadC (W n c d r : Nat) : (solo W (n + 4) (c, d, .loadC r)).2.2 = .commitDone r := by
+  show (solo W (n + 3) (c, d, .casC r c)).2.2 = _
+  exact solo_casC_ok W n c d r c (Or.inr rfl)
 
-theorem solo_casC (n c d r cur : Nat) : (solo (n + 5) (c, d, .casC r cur)).2.2 = .commitDone r := by
+theorem solo_casC (W n c d r cur : Nat) : (solo W (n + 5) (c, d, .casC r cur)).2.2 = .commitDone r := by
   by_cases h : r ≤ cur ∨ c = cur
-  · exact solo_casC_ok (n + 2) c d r cur h
-  · show (solo (n + 4) (stepPc c d (.casC r cur))).2.2 = _
+  · exact solo_casC_ok W (n + 2) c d r cur h
+  · show (solo W (n + 4) (stepPc W c d (.casC r cur))).2.2 = _
     have h1 : ¬ r ≤ cur := fun x => h (Or.inl x)
     have h2 : ¬ c = cur := fun x => h (Or.inr x)
-    simp only [stepPc, if_neg h1, if_neg h2]; exact solo_loadC n c d r
+    simp only [stepPc, if_neg h1, if_neg h2]; exact solo_loadC W n c d r
 
 /-- From ANY point inside a current `Commit r`, five instructions of the thread alone finish the call. -/
-theorem solo_commit_five {c d r : Nat} {pc : Pc} (h : pc.inCommit r = true) :
-    (solo 5 (c, d, pc)).2.2 = .commitDone r := by
+theorem solo_commit_five {W c d r : Nat} {pc : Pc} (h : pc.inCommit r = true) :
+    (solo W 5 (c, d, pc)).2.2 = .commitDone r := by
   cases pc <;> simp [Pc.inCommit] at h <;> subst h
-  · exact solo_loadC 1 c d _
-  · exact solo_casC 0 c d _ _
-  · exact solo_loadD 3 c d _
-  · exact solo_casD 2 c d _ _
+  · exact solo_loadC W 1 c d _
+  · exact solo_casC W 0 c d _ _
+  · exact solo_loadD W 3 c d _
+  · exact solo_casD W 2 c d _ _
 
-theorem solo_commit_four (c d r : Nat) : (solo 4 (c, d, .loadC r)).2.2 = .commitDone r :=
-  solo_loadC 0 c d r
+theorem solo_commit_four (W c d r : Nat) : (solo W 4 (c, d, .loadC r)).2.2 = .commitDone r :=
+  solo_loadC W 0 c d r
 
 /-! ## failed compare-and-swaps are paid for by other threads' writes -/
 
@@ -384,11 +434,11 @@ def changesBelowD (t r : Nat) : State → List Nat → Nat
   | s, i :: p => (if i ≠ t ∧ s.deal < r ∧ (step s i).deal ≠ s.deal then 1 else 0) +
       changesBelowD t r (step s i) p
 
-theorem stepPc_casC {c d : Nat} {pc : Pc} {r cur : Nat} (h : (stepPc c d pc).2.2 = .casC r cur) :
+theorem stepPc_casC {W c d : Nat} {pc : Pc} {r cur : Nat} (h : (stepPc W c d pc).2.2 = .casC r cur) :
     pc = .loadC r ∧ cur = c := by
   cases pc <;> simp only [stepPc] at h <;> (try split at h) <;> (try split at h) <;> simp_all
 
-theorem stepPc_casD {c d : Nat} {pc : Pc} {r cur : Nat} (h : (stepPc c d pc).2.2 = .casD r cur) :
+theorem stepPc_casD {W c d : Nat} {pc : Pc} {r cur : Nat} (h : (stepPc W c d pc).2.2 = .casD r cur) :
     pc = .loadD r ∧ cur = d := by
   cases pc <;> simp only [stepPc] at h <;> (try split at h) <;> (try split at h) <;> simp_all
 
@@ -540,5 +590,168 @@ theorem failsD_le (t r : Nat) (s : State) (p : List Nat) :
     have h2 := credit_step_D s i t r
     simp only [failsD, changesBelowD]
     omega
+
+/-! ## the same for Deal's compare-and-swap (the value it compares with was loaded TWO instructions earlier) -/
+
+/-- Thread `t` is at Deal's compare-and-swap, the window check passes and the compare-and-swap is going to FAIL. -/
+def pendingFailDeal (s : State) (t : Nat) : Bool :=
+  match s.threads[t]? with
+  | some (.dealCas dealt c0) => !(decide (c0 ≤ dealt ∧ s.window ≤ dealt + 1 - c0)) && decide (s.deal ≠ dealt)
+  | _ => false
+
+/-- Thread `t` is inside a Deal holding a value of `deal` that is no longer the register's value. -/
+def staleDeal (s : State) (t : Nat) : Bool :=
+  match s.threads[t]? with
+  | some (.dealLoadC dealt) => decide (s.deal ≠ dealt)
+  | some (.dealCas dealt _) => decide (s.deal ≠ dealt)
+  | _ => false
+
+/-- Number of failed compare-and-swaps thread `t` executes along the schedule inside Deal calls. -/
+def failsDeal (t : Nat) : State → List Nat → Nat
+  | _, [] => 0
+  | s, i :: p => (if i = t ∧ pendingFailDeal s t = true then 1 else 0) + failsDeal t (step s i) p
+
+/-- Number of steps of OTHER threads along the schedule that change `deal` (each of them raises it: a successful
+compare-and-swap of another Deal, or of a Commit). -/
+def changesD (t : Nat) : State → List Nat → Nat
+  | _, [] => 0
+  | s, i :: p => (if i ≠ t ∧ (step s i).deal ≠ s.deal then 1 else 0) + changesD t (step s i) p
+
+theorem pendingFailDeal_iff {s : State} {t : Nat} :
+    pendingFailDeal s t = true ↔ ∃ dealt c0, s.threads[t]? = some (.dealCas dealt c0) ∧
+      ¬ (c0 ≤ dealt ∧ s.window ≤ dealt + 1 - c0) ∧ s.deal ≠ dealt := by
+  unfold pendingFailDeal
+  constructor
+  · intro h
+    split at h
+    · rename_i dealt c0 heq
+      simp only [Bool.and_eq_true, Bool.not_eq_true', decide_eq_false_iff_not, decide_eq_true_eq] at h
+      exact ⟨dealt, c0, heq, h.1, h.2⟩
+    · cases h
+  · rintro ⟨dealt, c0, h1, h2, h3⟩
+    rw [h1]
+    simp only [Bool.and_eq_true, Bool.not_eq_true', decide_eq_false_iff_not, decide_eq_true_eq]
+    exact ⟨h2, h3⟩
+
+theorem pendingFailDeal_stale {s : State} {t : Nat} (h : pendingFailDeal s t = true) : staleDeal s t = true := by
+  rcases pendingFailDeal_iff.mp h with ⟨dealt, c0, h1, _, h3⟩
+  simp [staleDeal, h1, h3]
+
+theorem pendingFailDeal_step {s : State} {t : Nat} (h : pendingFailDeal s t = true) :
+    (step s t).threads[t]? = some .dealLoadD ∧ (step s t).committed = s.committed ∧ (step s t).deal = s.deal := by
+  rcases pendingFailDeal_iff.mp h with ⟨dealt, c0, h1, h2, h3⟩
+  refine ⟨?_, ?_, ?_⟩
+  · rw [step_threads_self h1]; simp [stepPc, h2, h3]
+  · rw [step_some h1]; simp [stepPc, h2, h3]
+  · rw [step_some h1]; simp [stepPc, h2, h3]
+
+theorem stepPc_dealLoadC {W c d : Nat} {pc : Pc} {x : Nat} (h : (stepPc W c d pc).2.2 = .dealLoadC x) :
+    pc = .dealLoadD ∧ x = d ∧ (stepPc W c d pc).2.1 = d := by
+  cases pc <;> simp only [stepPc] at h <;> (try split at h) <;> (try split at h) <;> simp_all [stepPc]
+
+theorem stepPc_dealCas {W c d : Nat} {pc : Pc} {x y : Nat} (h : (stepPc W c d pc).2.2 = .dealCas x y) :
+    pc = .dealLoadC x ∧ (stepPc W c d pc).2.1 = d := by
+  cases pc <;> simp only [stepPc] at h <;> (try split at h) <;> (try split at h) <;> simp_all [stepPc]
+
+/-- The thread's own step never makes its loaded value stale unless it already was (and a failure clears it). -/
+theorem staleDeal_own_step {s : State} {t : Nat} (hs : staleDeal s t = false) :
+    staleDeal (step s t) t = false := by
+  cases hth : s.threads[t]? with
+  | none => rw [step_none hth]; exact hs
+  | some pc =>
+    have h1 := step_threads_self hth
+    have hd : (step s t).deal = (stepPc s.window s.committed s.deal pc).2.1 := by rw [step_some hth]
+    cases hpc' : (stepPc s.window s.committed s.deal pc).2.2 with
+    | dealLoadC x =>
+      rcases stepPc_dealLoadC hpc' with ⟨_, hx, hdd⟩
+      rw [hpc'] at h1
+      simp [staleDeal, h1, hd, hdd, hx]
+    | dealCas x y =>
+      rcases stepPc_dealCas hpc' with ⟨hpc, hdd⟩
+      rw [hpc'] at h1
+      subst hpc
+      have : s.deal = x := by
+        simp [staleDeal, hth] at hs; exact hs
+      rw [hdd] at hd
+      simp [staleDeal, h1, hd, this]
+    | _ => rw [hpc'] at h1; simp [staleDeal, h1]
+
+theorem credit_step_Deal (s : State) (i t : Nat) :
+    (if i = t ∧ pendingFailDeal s t = true then 1 else 0) + (if staleDeal (step s i) t = true then 1 else 0) ≤
+    (if i ≠ t ∧ (step s i).deal ≠ s.deal then 1 else 0) + (if staleDeal s t = true then 1 else 0) := by
+  by_cases hi : i = t
+  · subst hi
+    by_cases hp : pendingFailDeal s i = true
+    · have h0 := pendingFailDeal_stale hp
+      have h1 : staleDeal (step s i) i = false := by
+        simp [staleDeal, (pendingFailDeal_step hp).1]
+      simp [hp, h0, h1]
+    · have hp' : pendingFailDeal s i = false := by simpa using hp
+      by_cases hs : staleDeal s i = true
+      · by_cases hs' : staleDeal (step s i) i = true <;> simp [hp', hs, hs']
+      · have hs0 : staleDeal s i = false := by simpa using hs
+        have h1 := staleDeal_own_step hs0
+        simp [hp', hs0, h1]
+  · by_cases hs' : staleDeal (step s i) t = true
+    · by_cases hs : staleDeal s t = true
+      · simp [hi, hs, hs']
+      · have hth : (step s i).threads[t]? = s.threads[t]? := step_threads_ne s (Ne.symm hi)
+        have hg : (step s i).deal ≠ s.deal := by
+          intro heq
+          apply hs
+          unfold staleDeal at hs' ⊢
+          rw [hth, heq] at hs'
+          exact hs'
+        simp [hi, hs, hs', hg]
+    · simp [hi, hs']
+
+theorem failsDeal_le (t : Nat) (s : State) (p : List Nat) :
+    failsDeal t s p ≤ changesD t s p + (if staleDeal s t = true then 1 else 0) := by
+  induction p generalizing s with
+  | nil => simp [failsDeal, changesD]
+  | cons i p ih =>
+    have h1 := ih (step s i)
+    have h2 := credit_step_Deal s i t
+    simp only [failsDeal, changesD]
+    omega
+
+/-! ## a Deal scheduled alone -/
+
+/-- The two ways a Deal call ends. -/
+def Pc.dealOutcome (pc : Pc) : Prop := (∃ v, pc = .dealDone v) ∨ (∃ a b, pc = .dealRefused a b)
+
+theorem solo_dealCas_ok (W n c d dealt c0 : Nat) (h : (c0 ≤ dealt ∧ W ≤ dealt + 1 - c0) ∨ d = dealt) :
+    (solo W (n + 1) (c, d, .dealCas dealt c0)).2.2.dealOutcome := by
+  show (solo W n (stepPc W c d (.dealCas dealt c0))).2.2.dealOutcome
+  by_cases h1 : c0 ≤ dealt ∧ W ≤ dealt + 1 - c0
+  · simp only [stepPc, if_pos h1]; rw [solo_done W n rfl]; exact Or.inr ⟨_, _, rfl⟩
+  · have h2 : d = dealt := h.resolve_left h1
+    simp only [stepPc, if_neg h1, if_pos h2]; rw [solo_done W n rfl]; exact Or.inl ⟨_, rfl⟩
+
+theorem solo_dealLoadD (W n c d : Nat) : (solo W (n + 3) (c, d, .dealLoadD)).2.2.dealOutcome :=
+  solo_dealCas_ok W n c d d c (Or.inr rfl)
+
+theorem solo_dealCas (W n c d dealt c0 : Nat) : (solo W (n + 4) (c, d, .dealCas dealt c0)).2.2.dealOutcome := by
+  by_cases h : (c0 ≤ dealt ∧ W ≤ dealt + 1 - c0) ∨ d = dealt
+  · exact solo_dealCas_ok W (n + 3) c d dealt c0 h
+  · have h1 : ¬ (c0 ≤ dealt ∧ W ≤ dealt + 1 - c0) := fun x => h (Or.inl x)
+    have h2 : ¬ d = dealt := fun x => h (Or.inr x)
+    show (solo W (n + 3) (stepPc W c d (.dealCas dealt c0))).2.2.dealOutcome
+    simp only [stepPc, if_neg h1, if_neg h2]
+    exact solo_dealLoadD W n c d
+
+theorem solo_dealLoadC (W n c d dealt : Nat) : (solo W (n + 5) (c, d, .dealLoadC dealt)).2.2.dealOutcome :=
+  solo_dealCas W n c d dealt c
+
+/-- Thread is inside a CURRENT Deal call. -/
+def Pc.inDeal : Pc → Bool
+  | .dealLoadD | .dealLoadC _ | .dealCas _ _ => true
+  | _ => false
+
+theorem solo_deal_five {W c d : Nat} {pc : Pc} (h : pc.inDeal = true) : (solo W 5 (c, d, pc)).2.2.dealOutcome := by
+  cases pc <;> simp [Pc.inDeal] at h
+  · exact solo_dealLoadD W 2 c d
+  · exact solo_dealLoadC W 0 c d _
+  · exact solo_dealCas W 1 c d _ _
 
 end KB.TsoCas
